@@ -150,7 +150,7 @@ PROPS["C01"] = {
         {"name": "C01_seal_roundtrip", "status": "proved", "statement": "the recipient opens what was sealed (the nonce derivation cannot fail; same DH assumption)"},
         {"name": "C01_example", "status": "proved", "statement": "non-vacuity by vm_compute"},
     ],
-    "builds": ["stable"],
+    "builds": ["stable", "nightly"],
     "rule": "keys/nonces {0, 0xff, PRNG} x every message length 0..=320 (+1 KiB, 4 KiB; thorough 64 KiB) through every classic secretbox form, box / afternm / sealed forms for seeded key pairs, object API (Vec and stack containers): "
             "bytes = libsodium's, opens under both libraries both ways (search); secretbox forms through the extracted model with sentinel-filled caller buffers (correspondence). non-trivial: all; distinct by (op,args)",
     "modelled": _SYM_MODELLED + ["public-key boxes: X25519 is the external curve25519-dalek; box = secretbox(beforenm) is checked on the implementation against libsodium (search); not yet in the model"],
@@ -238,7 +238,7 @@ PROPS["C05"] = {
         {"name": "C05_kx_layout", "status": "proved", "statement": "client rx||tx = BLAKE2b-512(shared || client_pk || server_pk) split in halves"},
         {"name": "C05_zero_point", "status": "proved", "statement": "non-vacuity: u = 0 gives the all-zero secret"},
     ],
-    "builds": ["stable"],
+    "builds": ["stable", "nightly"],
     "rule": "8 (thorough 24) scalars incl. 0, 0xff.., RFC vectors x {complete low-order / non-canonical table incl. libsodium blocklist, u=0..15, p-1, p, p+1, p+2, 2p-2..2p, 2^255-1, 2^256-1, RFC points, all with and without bit 255, 120 (thorough 600) PRNG encodings}: dryoc = libsodium byte for byte (search); "
             "RFC 7748 iterated vector 1 / 1000 (thorough 10^6) iterations; DH commutation, beforenm, kx client/server vs libsodium for PRNG pairs, kx with every zero-secret peer key; ~50 cases through the extracted Coq ladder (correspondence). non-trivial: all",
     "modelled": ["curve25519-dalek (MontgomeryPoint::mul_clamped, basepoint table) modelled by the RFC 7748 ladder over Z mod 2^255-19 (Spec/X25519.v); tied by correspondence only",
@@ -301,7 +301,7 @@ PROPS["C11"] = {
         {"name": "C11_keypair_secret_is_draw", "status": "proved", "statement": "the secret half of a key pair is its draw"},
         {"name": "C11_example", "status": "proved", "statement": "non-vacuity by vm_compute"},
     ],
-    "builds": ["stable"],
+    "builds": ["stable", "nightly"],
     "rule": "30 randomised entry points (classic keygen/keypair/header/seal/pwhash_str, object gen/seal/init_push/PwHash::hash with two salt lengths, byte-array gen, randombytes_buf / copy_randombytes incl. lengths > 256): "
             "(a) with hook rng::verif_set_rng feeding a PRNG stream, 2 (thorough 6) shuffled call sequences: each call must draw its documented number of bytes (> 0), consecutively, and return the documented function of exactly those bytes (identity; X25519 base; libsodium's Ed25519 seed keypair) -- sequences also run through the extracted model (correspondence); "
             "(b) hook off, 384 (thorough 4096) calls per entry point: no repeat, no all-zero value, no constant byte position (false-alarm probability < 2^-100 for values >= 16 bytes) (search)",
